@@ -381,13 +381,13 @@ def safe_name(s):
 
 
 def write_replay(pid, partname, bucket, case, detail):
-  d = os.path.join(HOME, "replays", "new")
+  d = os.environ.get("VT_REPLAY_DIR") or os.path.join(HOME, "replays", "new")
   os.makedirs(d, exist_ok=True)
   path = os.path.join(d, "%s-%s-%s.json" % (pid, safe_name(bucket), codec.chash(case)[:8]))
   with open(path, "w") as f:
     json.dump({"property": pid, "part": partname, "bucket": bucket, "detail": detail, "case": codec.enc(case)}, f,
               indent=1, sort_keys=True)
-  return os.path.relpath(path, HOME)
+  return os.path.relpath(path, HOME) if path.startswith(HOME + os.sep) else path
 
 
 def do_replay(mod, path):
